@@ -537,7 +537,7 @@ func main() {
 	// --- C. random cell sequences: lengths 0..12, non-ASCII graphemes, hyperlinks, near-identical neighbours
 	nC := 500
 	if thorough {
-		nC = 6000
+		nC = 4000
 	}
 	phaseC := func(nC int) {
 		for i := 0; i < nC; i++ {
@@ -651,7 +651,7 @@ func main() {
 	h.addSGR(g.style(), [][]int{{38}, {5}, {1 << 40}}, "random")
 	nE := 1500
 	if thorough {
-		nE = 40000
+		nE = 20000
 	}
 	vals := []int{0, 1, 2, 3, 4, 5, 6, 7, 8, 15, 16, 100, 255, 256, 257, 511, 1000, 65535, 99999}
 	codes := append([]int{38, 48, 58, 38, 48, 58, 2, 5, 6, 10, 20, 26, 50, 60, 89, 98, 99, 108, 110}, basic...)
